@@ -129,7 +129,8 @@ protected:
      * case the method should be overridden by a sub class.
      */
     virtual bool allowProcessReferences() { return false; }
-    std::map<std::string, frame_t> dynamicFrames;
+    /** The frame of the template of each variable bound by a quantifier over a dynamic template. */
+    std::map<symbol_t, frame_t> dynamicFrames;
 
 public:
     explicit ExpressionBuilder(Document& doc);
